@@ -366,6 +366,11 @@ class View:
                                     's1': None, 't1': None, 'kind': None, 'detail': None}
             elif k == 'ret':
                 c = self.calls[e[1]]
+                # whatever an abandoned caller 'returns' while it is being finalised (its loop was closed or its
+                # coroutine destroyed: GeneratorExit, or an error of the clean-up itself) is not a caller outcome
+                if self.closes.get(c['loop']):
+                    c['abandoned'] = True
+                    continue
                 if c['s1'] is None:
                     c['s1'], c['t1'], c['kind'], c['detail'] = seq, e[-1], e[2], e[3]
             elif k == 'lstop':
@@ -615,7 +620,7 @@ class CacheCheck(Check):
 
     # sizes: (n_rand, n_takeover, n_small_random, sweep stride)
     SIZES = {
-        'quick': {'rand': 60000, 'take': 14000, 'small': 14000, 'sweep': 3000, 'real': 48},
+        'quick': {'rand': 52000, 'take': 13000, 'small': 12000, 'sweep': 3000, 'real': 48},
         'thorough': {'rand': 1400000, 'take': 300000, 'small': 200000, 'sweep': 60000, 'real': 1200},
     }
     budget = {'quick': 45.0, 'thorough': 780.0}
